@@ -69,6 +69,8 @@ type Params struct {
 	// transactions that each change EVERY row in one statement, so that a single transaction appends more log than the
 	// log buffer holds (LogBufferSize = 129 pages) with no commit, eviction or checkpoint flushing in between
 	BigTxnRows int
+	// BigTxnDeletes: half of the big transactions delete every row instead (and are aborted most of the time)
+	BigTxnDeletes bool
 	// concurrent histories (RunConcurrent)
 	Clients      int
 	ConcurrentIO bool          // recorder does not serialise the engine's I/O calls (see rec.Recorder.Concurrent)
@@ -121,6 +123,9 @@ type runner struct {
 	stop    bool
 	squeeze bool
 }
+
+// Payload is payload for other packages.
+func Payload(r *rand.Rand, sizes []int, max int, tag string) string { return payload(r, sizes, max, tag) }
 
 func payload(r *rand.Rand, sizes []int, max int, tag string) string {
 	n := sizes[r.Intn(len(sizes))]
@@ -774,9 +779,49 @@ func (rn *runner) bigTxn() {
 			}
 		})
 	}
+	deleteAll := func(i int) bool {
+		o := rn.open[i]
+		var ids []int
+		for id := range rn.commit[table] {
+			ids = append(ids, int(id))
+		}
+		for id, rp := range o.overlay[table] {
+			if rp != nil {
+				if _, ok := rn.commit[table][id]; !ok {
+					ids = append(ids, int(id))
+				}
+			}
+		}
+		sort.Ints(ids)
+		rn.h.Stats["stmt_delete_every_row"]++
+		return rn.stmt(i, fmt.Sprintf("DELETE FROM %s WHERE id >= 0;", table), false, func(o *openTxn) {
+			for _, idi := range ids {
+				if old, _ := rn.visible(o, table, int32(idi)); old != nil {
+					rn.write(o, table, "del", int32(idi), nil)
+				}
+			}
+		})
+	}
 	rounds := 2 + r.Intn(2)
+	if rn.p.BigTxnDeletes {
+		rounds += 2
+	}
 	for round := 0; round < rounds && !rn.stop && rn.h.EndedEarly == ""; round++ {
 		rn.begin()
+		if rn.p.BigTxnDeletes && r.Intn(2) == 0 {
+			// (ended by an abort most of the time: a committed one empties the table for the rest of the history)
+			if !deleteAll(0) {
+				return
+			}
+			if len(rn.open) > 0 {
+				if r.Intn(8) == 0 {
+					rn.commitTxn(0)
+				} else {
+					rn.abortTxn(0, false)
+				}
+			}
+			continue
+		}
 		if !updateAll(0) {
 			return
 		}
